@@ -56,7 +56,7 @@ PLACES = ('none', 'cmd', 'args', 'working_dir', 'stdout_stream.filename', 'freef
 PERMS = ((0, 1, 2), (0, 2, 1), (1, 0, 2), (1, 2, 0), (2, 0, 1), (2, 1, 0))
 
 
-def build(genv, s1, s2, s3, order, ce, place, grp, inc):
+def build(genv, s1, s2, s3, order, ce, place, grp, inc, ce2=0):
     """-> (main ini text, included text or None, expected watchers {name: dict})"""
     env_sections = []
     if s1:
@@ -91,6 +91,8 @@ def build(genv, s1, s2, s3, order, ce, place, grp, inc):
         w1['plugin_hint'] = 'x-' + ref
     if ce:
         w1['copy_env'] = 'true'
+    if ce2:
+        w2['copy_env'] = 'yes'
     w1.update(GROUPS[grp][0])
     lines = ['[circus]', 'check_delay = -1']
     if inc:
@@ -134,7 +136,7 @@ def build(genv, s1, s2, s3, order, ce, place, grp, inc):
                 e[k] = opts[k]
         if 'stdout_stream.filename' in opts:
             e['stdout_stream'] = {'class': 'FileStream', 'filename': opts['stdout_stream.filename']}
-        copy_env = name == 'w1' and ce
+        copy_env = (name == 'w1' and ce) or (name == 'w2' and ce2)
         e['copy_env'] = bool(copy_env)
         if name == 'w1':
             for k, v in GROUPS[grp][1].items():
@@ -164,10 +166,11 @@ def build(genv, s1, s2, s3, order, ce, place, grp, inc):
     return text, included, exp
 
 
-def c16_config(genv: int, s1: int, s2: int, s3: int, order: int, ce: int, place: int, grp: int, inc: int) -> bool:
+def c16_config(genv: int, s1: int, s2: int, s3: int, order: int, ce: int, place: int, grp: int, inc: int, ce2: int) -> bool:
     """
     pre: 0 <= genv <= 2 and 0 <= s1 <= 1 and 0 <= s2 <= 1 and 0 <= s3 <= 2 and 0 <= order < 6 and 0 <= ce <= 1
-    pre: place == rt.S['place'] and 0 <= grp < len(GROUPS) and 0 <= inc <= 1
+    pre: place == rt.S['place'] and 0 <= grp < len(GROUPS) and 0 <= inc <= 1 and 0 <= ce2 <= 1
+    pre: ce2 == 0 or (grp == 0 and inc == 0)
     pre: order < (1, 1, 2, 6)[s1 + s2 + (s3 > 0)]
     pre: genv > 0 or s1 + s2 + (s3 > 0) > 0 or ce == 1 or place == 0
     post: _
@@ -181,11 +184,12 @@ def c16_config(genv: int, s1: int, s2: int, s3: int, order: int, ce: int, place:
     place = rt.pick(place, len(PLACES))
     grp = rt.pick(grp, len(GROUPS))
     inc = rt.pick(inc, 2)
+    ce2 = rt.pick(ce2, 2)
     with rt.untraced():
-        return rt.verdict(_run(genv, s1, s2, s3, order, ce, place, grp, inc))
+        return rt.verdict(_run(genv, s1, s2, s3, order, ce, place, grp, inc, ce2))
 
 
-def _run(genv, s1, s2, s3, order, ce, place, grp, inc):
+def _run(genv, s1, s2, s3, order, ce, place, grp, inc, ce2=0):
     from circus.config import get_config
     from circus.watcher import Watcher
     tmp = tempfile.mkdtemp(prefix='c16_')
@@ -194,7 +198,7 @@ def _run(genv, s1, s2, s3, order, ce, place, grp, inc):
     os.environ['C16INC'] = tmp
     try:
         # w2 never matches env:w1; a reference is only placed when the variable is defined for w1 somewhere (always: os.environ)
-        text, included, exp = build(genv, s1, s2, s3, order, ce, place, grp, inc)
+        text, included, exp = build(genv, s1, s2, s3, order, ce, place, grp, inc, ce2)
         path = os.path.join(tmp, 'circus.ini')
         with open(path, 'w') as f:
             f.write(text)
